@@ -102,6 +102,12 @@ def kf_triggers(evs):
                     tr.append(("KF-L2-upgrade-supersede-swallowed", b))
             if fl["atomic"] and fl["maxHistory"] > 0 and not ok:
                 tr.append(("KF-L15-atomic-rollback-ignores-history-max", b))
+        if be["op"] == "rollback" and not fl["dryRun"] and pre["store"]:
+            # L28: the rollback diffs against the last revision although that one never became deployed
+            lastk = str(max(int(k) for k in pre["store"]))
+            if pre["store"][lastk]["st"] != "deployed" and any(
+                    v["st"] == "deployed" and v["man"] != pre["store"][lastk]["man"] for v in pre["store"].values()):
+                tr.append(("KF-L28-rollback-diffs-against-undeployed-last-revision", b))
         if be["op"] == "rollback" and not fl["dryRun"]:
             for x in injs:
                 # L2r: a write that supersedes a deployed revision fails and is swallowed
@@ -193,6 +199,7 @@ KF_RELEVANT = {
     "KF-L4-atomic-rollback-fails-no-resource-found": {"C03_AtomicUpgrade"},
     "KF-L7-uninstall-skips-other-policy-values": {"C02_Uninstall"},
     "KF-L6-unstructured-two-way-merge": {"C02_Success", "C03_AtomicUpgrade"},
+    "KF-L28-rollback-diffs-against-undeployed-last-revision": {"C02_Success"},
 }
 # findings whose damage persists in the ledger: later states of the same scenario stay affected
 KF_PERSIST = {"KF-L24-replace-supersedes-running-install", "KF-L23-prune-deletes-pending-record-of-running-operation", "KF-L22-atomic-rollback-races-with-upgrade", "KF-L2-upgrade-supersede-swallowed", "KF-L2-rollback-supersede-swallowed",
@@ -231,6 +238,17 @@ def explains(kf, name, evs, b, e):
         last = pre["store"][str(max(int(k) for k in pre["store"]))]
         left = {r for r, m in last["man"].items() if m["pol"] != "keep" and r in post["cluster"]}
         return bool(left) and all(last["man"][r]["pol"] == "other" for r in left)
+    if kf == "KF-L28-rollback-diffs-against-undeployed-last-revision":
+        if not post["store"]:
+            return False
+        cur = pre["store"][str(max(int(k) for k in pre["store"]))]["man"]
+        new = post["store"][str(max(int(k) for k in post["store"]))]["man"]
+        deps = [v["man"] for v in pre["store"].values() if v["st"] == "deployed"]
+        # left behind: in a deployed manifest, not in the new one, still there - only what the last revision did not name
+        left = {r for dm in deps for r in dm if r not in new and r in post["cluster"] and post["cluster"][r].get("pol") != "keep"}
+        # off: named by the new manifest but different - only where last and new manifest say the same (nothing to patch)
+        off = mismatching(new, post["cluster"])
+        return bool(left or off) and all(r not in cur for r in left) and all(r in cur and cur[r] == new[r] for r in off)
     if kf == "KF-L4-atomic-rollback-fails-no-resource-found":
         return "with the name" in en.get("err", "") and "found" in en.get("err", "")
     if kf == "KF-L5-obsolete-resource-errors-swallowed":
